@@ -13,7 +13,8 @@ class ExprIndexedFieldRefModel(ExprModel):
     
     def __init__(self,
                  root : ExprModel,
-                 idx_t):
+                 idx_t,
+                 name_t=None):
         super().__init__()
         
         if not isinstance(root, (ExprFieldRefModel,ExprArraySubscriptModel,ExprIndexedFieldRefModel)):
@@ -21,6 +22,8 @@ class ExprIndexedFieldRefModel(ExprModel):
         
         self.root = root
         self.idx_t = idx_t
+        # Optional field names matching idx_t
+        self.name_t = name_t
         
     def get_target(self, root=None):
         if root is not None:
@@ -34,8 +37,13 @@ class ExprIndexedFieldRefModel(ExprModel):
         else:
             ret = self.root.fm
 
-        for i in self.idx_t:
-            ret = ret.get_field(i)
+        for i,idx in enumerate(self.idx_t):
+            # The index was taken from the declared (element) type. An object of
+            # a derived type can hold the same field at a different position
+            name = self.name_t[i] if self.name_t is not None else None
+            if name is not None and name in ret.field_id_m.keys():
+                idx = ret.field_id_m[name]
+            ret = ret.get_field(idx)
 
         return ret
         
